@@ -30,6 +30,7 @@ func c02(c *eng.Ctx, r *eng.Report) {
 		"R2.10 every dispatch on the kind of a split RLP item in the trie decoder handles Byte, String and List or ends in an error. " +
 		"R2.12 the root a trie reports is the hash of its root node: every value Trie.Hash returns, and every root Trie.Commit returns with a nil error, comes out of hashRoot (which yields the empty-set root for an empty trie) — never a constant or a zero value; " +
 		"R2.13 the node store's read path has no length floor: whether a stored blob is treated as present depends only on the lookup error and on its being nil — the root node is stored under its hash however short its encoding (the force flag of R2.4), so a test like len(enc) < 32 makes small tries unreadable after a reload; " +
+		"R2.18 nodes are serialised by the RLP codec, not by hand: the only EncodeRLP methods in the trie package are the reviewed ones of fullNode and rawFullNode (which substitute empty strings for nil children and hand the array to rlp.Encode) — a hand-written encoder for another node type (a short node whose long-string tag starts at 0xB8 instead of 0xB7) hashes values of 56 bytes or more over bytes that are not their RLP, and the root is not the Merkle-Patricia root of the content; " +
 		"R2.17 the conversions between live and stored nodes visit every child: in simplifyNode and expandNode the recursive call on a branch child depends on nothing but the child being non-nil (and the loop bound) — a cascade restricted to one node kind leaves a live *fullNode embedded in a branch (two keys differing in their last nibble under a common branch) in the write-back cache, and Commit panics with `unknown node type` while holding the database lock; " +
 		"R2.16 a trie holds nothing beside the nodes that are hashed: the structs Trie, fullNode, shortNode and nodeFlag have exactly the reviewed fields (root, db, originalRoot and the cache generation; Children/Key/Val and the flags) — any further field is state the root does not commit to (a per-node child counter that the disk decoder fills differently from insert; a lookup memo that one of the update paths forgets to invalidate) and must be reviewed before the claim stands; " +
 		"R2.15 the node decoder accepts every node the encoder can write: decodeShort and decodeFull fail only when an RLP split or a child decode failed — each error they return carries a callee's error, they raise none of their own (a short node's path may be empty: two keys that differ in their last nibble leave two leaves with nothing but the terminator; a branch value may be empty) — the reviewed shape checks live in decodeNode and decodeRef; " +
@@ -54,6 +55,7 @@ func c02(c *eng.Ctx, r *eng.Report) {
 	c02DecoderRejectsOnlyRLP(c, r)
 	c02NodeCensus(c, r)
 	c02CascadeEveryChild(c, r)
+	c02EncoderCensus(c, r)
 }
 
 func isNodePtr(t types.Type) (string, bool) {
@@ -1227,5 +1229,24 @@ func c02CascadeEveryChild(c *eng.Ctx, r *eng.Report) {
 			}
 		}
 		r.Check(bad == "" && n >= 1, rule, "cascade:"+name, c.Pos(fn.Pos()), fmt.Sprintf("%d recursive call(s) on branch children, each under child != nil only", n), name+" descends into a branch child only under "+bad+": children of the other kinds keep their live form — a small branch embedded directly in another branch stays a *fullNode inside the raw node handed to the database, and Trie.Commit panics in NodeDatabase.insert (unknown node type: *trie.fullNode) with the database lock held, although Hash() is well defined for that content")
+	}
+}
+
+// c02EncoderCensus: see R2.18.
+func c02EncoderCensus(c *eng.Ctx, r *eng.Report) {
+	const rule = "R2.18"
+	r.Min(rule, 2)
+	reviewed := map[string]bool{"(*storage/trie.fullNode).EncodeRLP": true, "(storage/trie.rawFullNode).EncodeRLP": true}
+	n := 0
+	for _, fn := range c.PkgFuncs(triePkg) {
+		if fn.Name() != "EncodeRLP" || fn.Signature.Recv() == nil {
+			continue
+		}
+		n++
+		name := eng.FuncName(fn)
+		r.Check(reviewed[name], rule, "node-encoder:"+name, c.Pos(fn.Pos()), "reviewed: substitutes empty strings for nil children and calls rlp.Encode", name+" is a hand-written RLP encoder for a trie node that is not in the reviewed set: the bytes a node is hashed over are then whatever this function writes, not what the RLP codec (decided under C08) writes for the same node — a wrong tag base for long strings changes the root of every trie holding a value of 56 bytes or more, while reads and reloads, which go through the reflection encoder, keep working")
+	}
+	if n < 2 {
+		r.Fail(rule, "node-encoder:census", "", fmt.Sprintf("%d EncodeRLP methods found in the trie package, 2 expected", n))
 	}
 }
